@@ -172,13 +172,13 @@ func nameKeyedSetOverInline(w *World, r *Report, prop string, inScope func(fn *s
 			if owner == "" {
 				owner = fn.Pkg.Pkg.Name()
 			}
-			key := fmt.Sprintf("%s: set %s keyed by a packet's name sees declared packets only", owner, mapDesc(lk.X))
+			key := fmt.Sprintf("%s: a set keyed by a packet's name sees declared packets only", owner)
 			if seenKey[key] {
 				return
 			}
 			seenKey[key] = true
 			if wit := mayBeInline(fn, p, b, 0, map[ssa.Value]bool{}); wit != "" {
-				r.fail(rule, key, w.instrPos(lk), why+" - the packet can be: "+wit)
+				r.fail(rule, key, w.instrPos(lk), why+" - the set is "+mapDesc(lk.X)+" in "+fnKey(fn)+", the packet can be: "+wit)
 			} else {
 				r.pass(rule, key, w.instrPos(lk), "")
 			}
